@@ -157,6 +157,7 @@ Definition stat (s : ost) (id : nat) : option status := option_map t_status (nth
 Definition onids (s : ost) : list nat := map snd (ongoing s).
 Definition waiting (st : status) : Prop := st = RUNNING \/ st = INVALID.
 Definition final (st : status) : Prop := st = COMPLETED \/ st = FAILED.
+Definition finalat (s : ost) (id : nat) : Prop := exists st, stat s id = Some st /\ final st.
 
 Record Inv (s : ost) : Prop := {
   I_start : start_order s = seq 0 (length (trials s));
@@ -166,9 +167,11 @@ Record Inv (s : ost) : Prop := {
   I_on_run : forall id, In id (onids s) -> stat s id = Some RUNNING;
   I_rq_wait : forall id, In id (retryq s) -> exists st, stat s id = Some st /\ waiting st;
   I_eo_fin : forall id, In id (end_order s) -> exists st, stat s id = Some st /\ final st;
-  I_cover : forall id, id < length (trials s) -> In id (onids s) \/ In id (retryq s) \/ In id (end_order s);
+  (* a trial is handed out, queued, or has ended. (After a crash between the two writes of end_trial the restart can know an
+     ended trial that end_order does not list; without a crash every ended trial is in end_order: LStrong.v.) *)
+  I_cover : forall id, id < length (trials s) -> In id (onids s) \/ In id (retryq s) \/ finalat s id;
   I_score : forall id t, nth_error (trials s) id = Some t -> t_status t = COMPLETED -> exists x, t_score t = Some (SVal x);
-  I_d_fin : forall id, In id (end_order s) -> option_map (@to_disk V Sc) (nth_error (trials s) id) = nth_error (disk s) id;
+  I_d_fin : forall id, finalat s id -> option_map (@to_disk V Sc) (nth_error (trials s) id) = nth_error (disk s) id;
   I_d_wait : forall id d, In id (onids s) \/ In id (retryq s) -> nth_error (disk s) id = Some d -> waiting (d_status d)
 }.
 
@@ -184,7 +187,7 @@ Proof.
   - tauto.
   - intros id H. lia.
   - intros [|id] t H; discriminate.
-  - tauto.
+  - intros [|id] (st & Hs & _); discriminate.
   - intros id d [[]|[]].
 Qed.
 
@@ -196,6 +199,11 @@ Qed.
 
 Lemma waiting_not_final st : waiting st -> final st -> False.
 Proof. intros [->| ->] [H|H]; discriminate. Qed.
+
+Lemma finalat_same (s s' : ost) j : stat s' j = stat s j -> finalat s j -> finalat s' j.
+Proof. intros E (st & Hs & Hf). exists st. split; [now rewrite E|exact Hf]. Qed.
+Lemma eo_finalat s id : Inv s -> In id (end_order s) -> finalat s id.
+Proof. intros HI H. exact (I_eo_fin _ HI _ H). Qed.
 
 (* facts every proof needs about an id that is currently handed out *)
 Lemma on_facts s id : Inv s -> In id (onids s) ->
@@ -223,12 +231,14 @@ Proof.
   - intros j Hj. unfold stat. simpl. rewrite Hst. now apply (I_on_run _ HI).
   - intros j Hj. unfold stat. simpl. rewrite Hst. now apply (I_rq_wait _ HI).
   - intros j Hj. unfold stat. simpl. rewrite Hst. now apply (I_eo_fin _ HI).
-  - intros j Hj. rewrite length_upd in Hj. now apply (I_cover _ HI).
+  - intros j Hj. rewrite length_upd in Hj. destruct (I_cover _ HI j Hj) as [H|[H|H]]; auto.
+    right. right. revert H. apply finalat_same. unfold stat. simpl. apply Hst.
   - intros j u Hn Hc. destruct (Nat.eq_dec id j) as [->|Hne].
     + rewrite nth_upd_same, Et in Hn. simpl in Hn. inversion Hn; subst. simpl in *.
       apply (I_score _ HI j t Et Hc).
     + rewrite nth_upd_other in Hn by assumption. eapply (I_score _ HI); eauto.
-  - intros j Hj. destruct (Nat.eq_dec id j) as [->|Hne].
+  - intros j Hj. assert (Hj' : finalat s j). { revert Hj. apply finalat_same. unfold stat. simpl. symmetry. apply Hst. }
+    destruct (Nat.eq_dec id j) as [->|Hne].
     + rewrite !nth_upd_same, Et. simpl.
       assert (j < length (disk s)) by (rewrite (I_disk_len _ HI); exact Hlt).
       destruct (nth_error (disk s) j) eqn:Ed; [reflexivity|]. apply nth_error_None in Ed. lia.
@@ -291,13 +301,17 @@ Proof.
       destruct (Nat.eq_dec j id) as [->|Hne].
       * left. apply in_or_app. right. now left.
       * assert (j < length (trials s)) by (unfold id in *; lia).
-        destruct (I_cover _ HI j H) as [H1|[H1|H1]]; auto. left. apply in_or_app. now left.
+        destruct (I_cover _ HI j H) as [H1|[H1|H1]]; auto; [left; apply in_or_app; now left|].
+        right. right. destruct H1 as (st & Hs & Hf). exists st. split; [|exact Hf]. unfold stat. simpl. now apply Hstold.
     + intros j u Hn Hc. destruct (Nat.lt_ge_cases j (length (trials s))) as [Hlt|Hge].
       * rewrite Hold in Hn by exact Hlt. eapply (I_score _ HI); eauto.
       * rewrite nth_error_app2 in Hn by lia. destruct (j - length (trials s)) as [|[|k]]; simpl in Hn; try discriminate.
         inversion Hn; subst. discriminate.
-    + intros j Hj. destruct (I_eo_fin _ HI _ Hj) as (st & Hs & _). pose proof (stat_lt _ _ _ Hs) as Hlt.
-      rewrite Hold, Hdold by exact Hlt. now apply (I_d_fin _ HI).
+    + intros j (st & Hs & Hf). unfold stat in Hs. simpl in Hs.
+      destruct (Nat.lt_ge_cases j (length (trials s))) as [Hlt|Hge].
+      * rewrite Hold, Hdold by exact Hlt. apply (I_d_fin _ HI). exists st. split; [|exact Hf]. unfold stat. now rewrite <- Hold.
+      * rewrite nth_error_app2 in Hs by lia. destruct (j - length (trials s)) as [|[|k]]; simpl in Hs; try discriminate.
+        inversion Hs; subst. destruct Hf; discriminate.
     + intros j d Hj Hd. unfold onids in Hj. simpl in Hj. rewrite map_app in Hj.
       destruct (Nat.eq_dec j id) as [->|Hne].
       * rewrite Hdnew in Hd. inversion Hd; subst. simpl. now left.
@@ -336,16 +350,17 @@ Proof.
     + intros j Hj. rewrite length_upd in Hj. unfold onids. simpl. rewrite map_app. simpl.
       destruct (Nat.eq_dec j id) as [->|Hne].
       * left. apply in_or_app. right. now left.
-      * destruct (I_cover _ HI j Hj) as [H1|[H1|H1]]; auto.
+      * destruct (I_cover _ HI j Hj) as [H1|[H1|H1]].
         -- left. apply in_or_app. now left.
         -- right. left. rewrite Hrq in H1. apply in_app_or in H1 as [H1|[E|[]]]; [exact H1|congruence].
+        -- right. right. revert H1. apply finalat_same. unfold stat. simpl. now rewrite Hother.
     + intros j u Hn Hc. destruct (Nat.eq_dec j id) as [->|Hne].
       * rewrite nth_upd_same in Hn. destruct (nth_error (trials s) id); simpl in Hn; [|discriminate].
         inversion Hn; subst. discriminate.
       * rewrite Hother in Hn by exact Hne. eapply (I_score _ HI); eauto.
     + intros j Hj. assert (j <> id).
-      { intros ->. destruct (I_part _ HI) as (_ & _ & _ & _ & _ & Hbc). now apply (Hbc id). }
-      rewrite Hother by assumption. now apply (I_d_fin _ HI).
+      { intros ->. destruct Hj as (st & Hs & Hf). unfold stat in Hs. simpl in Hs. rewrite Hself in Hs. inversion Hs; subst. destruct Hf; discriminate. }
+      rewrite Hother by assumption. apply (I_d_fin _ HI). revert Hj. apply finalat_same. unfold stat. simpl. now rewrite Hother.
     + intros j d Hj Hd. eapply (I_d_wait _ HI); [|exact Hd].
       unfold onids in Hj. simpl in Hj. rewrite map_app in Hj. destruct Hj as [Hj|Hj].
       * apply in_app_or in Hj as [Hj|[<-|[]]]; [now left|now right].
@@ -399,13 +414,16 @@ Proof.
   - intros j Hj. assert (j <> id) by (intros ->; contradiction). unfold stat. simpl. rewrite es_other by assumption. now apply (I_eo_fin _ HI).
   - intros j Hj. unfold ts' in Hj. rewrite length_upd in Hj. unfold onids. simpl. destruct (Nat.eq_dec j id) as [->|Hne].
     + right. left. apply in_or_app. right. now left.
-    + destruct (I_cover _ HI j Hj) as [H1|[H1|H1]]; auto.
+    + destruct (I_cover _ HI j Hj) as [H1|[H1|H1]].
       * left. now apply rfb_snd_keeps.
       * right. left. apply in_or_app. now left.
+      * right. right. revert H1. apply finalat_same. unfold stat. simpl. now rewrite es_other.
   - intros j u Hn Hc. destruct (Nat.eq_dec j id) as [->|Hne].
     + rewrite es_same in Hn. inversion Hn; subst. congruence.
     + rewrite es_other in Hn by exact Hne. eapply (I_score _ HI); eauto.
-  - intros j Hj. assert (j <> id) by (intros ->; contradiction). rewrite es_other, es_dother by assumption. now apply (I_d_fin _ HI).
+  - intros j Hj. assert (j <> id).
+    { intros ->. destruct Hj as (st & Hs & Hf). unfold stat in Hs. simpl in Hs. rewrite es_same in Hs. simpl in Hs. rewrite Hst in Hs. inversion Hs; subst. destruct Hf; discriminate. }
+    rewrite es_other, es_dother by assumption. apply (I_d_fin _ HI). revert Hj. apply finalat_same. unfold stat. simpl. now rewrite es_other.
   - intros j d Hj Hd. unfold onids in Hj. simpl in Hj. destruct (Nat.eq_dec j id) as [->|Hne].
     + rewrite es_dsame in Hd. inversion Hd; subst. simpl. rewrite Hst. now right.
     + rewrite es_dother in Hd by exact Hne. eapply (I_d_wait _ HI); [|exact Hd].
@@ -435,16 +453,16 @@ Proof.
     + assert (j <> id) by (intros ->; contradiction). unfold stat. simpl. rewrite es_other by assumption. now apply (I_eo_fin _ HI).
     + exists (t_status t'). split; [|exact Hfin]. unfold stat. simpl. now rewrite es_same.
   - intros j Hj. unfold ts' in Hj. rewrite length_upd in Hj. unfold onids. simpl. destruct (Nat.eq_dec j id) as [->|Hne].
-    + right. right. apply in_or_app. right. now left.
+    + right. right. exists (t_status t'). split; [unfold stat; simpl; now rewrite es_same|exact Hfin].
     + destruct (I_cover _ HI j Hj) as [H1|[H1|H1]]; auto.
       * left. now apply rfb_snd_keeps.
-      * right. right. apply in_or_app. now left.
+      * right. right. revert H1. apply finalat_same. unfold stat. simpl. now rewrite es_other.
   - intros j u Hn Hc. destruct (Nat.eq_dec j id) as [->|Hne].
     + rewrite es_same in Hn. inversion Hn; subst. destruct Hst as [[_ H]|H]; [exact H|congruence].
     + rewrite es_other in Hn by exact Hne. eapply (I_score _ HI); eauto.
-  - intros j Hj. apply in_app_or in Hj as [Hj|[<-|[]]].
-    + assert (j <> id) by (intros ->; contradiction). rewrite es_other, es_dother by assumption. now apply (I_d_fin _ HI).
+  - intros j Hj. destruct (Nat.eq_dec j id) as [->|Hne].
     + now rewrite es_same, es_dsame.
+    + rewrite es_other, es_dother by assumption. apply (I_d_fin _ HI). revert Hj. apply finalat_same. unfold stat. simpl. now rewrite es_other.
   - intros j d Hj Hd. unfold onids in Hj. simpl in Hj.
     assert (j <> id). { intros ->. destruct Hj as [Hj|Hj]; contradiction. }
     rewrite es_dother in Hd by assumption. eapply (I_d_wait _ HI); [|exact Hd].
@@ -503,8 +521,8 @@ Proof.
     { destruct Hj as [H|H]; [eapply stat_lt, (I_on_run _ HI); eauto|]. destruct (I_rq_wait _ HI _ H) as (st & Hs & _). eapply stat_lt; eauto. }
     destruct (Hnth j Hlt) as (t & d & Et & Ed & En). exists (d_status d). split; [unfold stat; simpl; now rewrite En|].
     eapply (I_d_wait _ HI); eauto. }
-  assert (Hfin : forall j, In j (end_order s) -> exists t, nth_error (trials s) j = Some t /\ nth_error (from_disk (trials s) (disk s)) j = Some t /\ final (t_status t)).
-  { intros j Hj. destruct (I_eo_fin _ HI _ Hj) as (st & Hs & Hf). pose proof (stat_lt _ _ _ Hs) as Hlt.
+  assert (Hfin : forall j, finalat s j -> exists t, nth_error (trials s) j = Some t /\ nth_error (from_disk (trials s) (disk s)) j = Some t /\ final (t_status t)).
+  { intros j Hj. pose proof Hj as (st & Hs & Hf). pose proof (stat_lt _ _ _ Hs) as Hlt.
     destruct (Hnth j Hlt) as (t & d & Et & Ed & En). pose proof (I_d_fin _ HI _ Hj) as Hd. rewrite Et, Ed in Hd. simpl in Hd.
     inversion Hd; subst d. exists t. repeat split; auto.
     - rewrite En. destruct t; reflexivity.
@@ -516,10 +534,11 @@ Proof.
   - unfold onids. simpl. apply part3_reload, (I_part _ HI).
   - intros j [].
   - intros j Hj. apply Hwait. apply in_app_or in Hj as [Hj|Hj]; [now right|now left].
-  - intros j Hj. destruct (Hfin j Hj) as (t & Et & En & Hf). exists (t_status t). split; [unfold stat; simpl; now rewrite En|exact Hf].
-  - intros j Hj. rewrite Hlen in Hj. unfold onids. simpl. destruct (I_cover _ HI j Hj) as [H|[H|H]]; auto.
+  - intros j Hj. destruct (Hfin j (eo_finalat _ _ HI Hj)) as (t & Et & En & Hf). exists (t_status t). split; [unfold stat; simpl; now rewrite En|exact Hf].
+  - intros j Hj. rewrite Hlen in Hj. unfold onids. simpl. destruct (I_cover _ HI j Hj) as [H|[H|H]].
     + right. left. apply in_or_app. now right.
     + right. left. apply in_or_app. now left.
+    + right. right. destruct (Hfin j H) as (t & Et & En & Hf). exists (t_status t). split; [unfold stat; simpl; now rewrite En|exact Hf].
   - intros j u Hn Hc. assert (Hlt : j < length (trials s)). { rewrite <- Hlen. apply nth_error_Some. congruence. }
     destruct (I_cover _ HI j Hlt) as [H|[H|H]].
     + destruct (Hwait j (or_introl H)) as (st & Hs & Hw). unfold stat in Hs. simpl in Hs. rewrite Hn in Hs. simpl in Hs.
@@ -527,7 +546,12 @@ Proof.
     + destruct (Hwait j (or_intror H)) as (st & Hs & Hw). unfold stat in Hs. simpl in Hs. rewrite Hn in Hs. simpl in Hs.
       inversion Hs; subst. rewrite Hc in Hw. destruct Hw; discriminate.
     + destruct (Hfin j H) as (t & Et & En & Hf). rewrite En in Hn. inversion Hn; subst. eapply (I_score _ HI); eauto.
-  - intros j Hj. destruct (Hfin j Hj) as (t & Et & En & Hf). rewrite En, <- Et. now apply (I_d_fin _ HI).
+  - intros j Hj. assert (Hj' : finalat s j).
+    { pose proof Hj as (st & Hs & Hf). assert (Hlt : j < length (trials s)). { rewrite <- Hlen. eapply (stat_lt _ _ _ Hs). }
+      destruct (I_cover _ HI j Hlt) as [H|[H|H]]; [| |exact H].
+      - destruct (Hwait j (or_introl H)) as (st' & Hs' & Hw). rewrite Hs in Hs'. inversion Hs'; subst. exfalso. eapply waiting_not_final; eauto.
+      - destruct (Hwait j (or_intror H)) as (st' & Hs' & Hw). rewrite Hs in Hs'. inversion Hs'; subst. exfalso. eapply waiting_not_final; eauto. }
+    destruct (Hfin j Hj') as (t & Et & En & Hf). rewrite En, <- Et. now apply (I_d_fin _ HI).
   - intros j d Hj Hd. eapply (I_d_wait _ HI); [|exact Hd]. destruct Hj as [[]|Hj].
     apply in_app_or in Hj as [Hj|Hj]; [now right|now left].
 Qed.
